@@ -197,7 +197,7 @@ def wrap_isolation(ctx, rule):
             ok, why = False, "returns %s, not a fresh two-field dict" % show(v)[:80]
             break
         d = dict(v[2])
-        if not payload_is_isolated(p, d[C("signed")], obj):
+        if not payload_is_isolated(p, d[C("signed")], obj, eng):
             ok, why = False, "payload is %s, not copy.deepcopy(argument): later changes to either side affect the other" % show(d[C("signed")])[:80]
             break
         if not (is_lit(d[C("signatures")], "dict") and len(d[C("signatures")][2]) == 0):
